@@ -2,8 +2,8 @@
 META = {
     "level": "exploration",
     "technique": "runtime oracle on real StorageFarmBroker instances (fake tub/rref only): hashlib permutation model, cross-broker agreement, upload filter vs a certificate model under a virtual clock; real Tahoe2ServerSelector and Publish.update_goal observed at the fake storage servers",
-    "text": "Builds pairs of real StorageFarmBrokers from the same seeded server set (1-10 servers, real ed25519 identities, announced / static / test_add_rref paths, different insertion orders, connections made and lost through the real _got_connection / notifyOnDisconnect callbacks, re-announcements), configured either directly (StorageClientConfig) or through tahoe.cfg text (from_node_config), with preferred peers and 0-2 grid-manager keys, servers carrying valid / expired / soon-expiring / other-server / foreign-signer / tampered certificates. Oracle: get_servers_for_psi order == preferred first then sha1(psi+seed) via hashlib; both brokers agree; for_upload=True removes exactly the non-permitted servers (model: C33 predicate with integer clock) and keeps the order, across clock moves over expiry. Also runs the real immutable Tahoe2ServerSelector.get_shareholders and mutable Publish.update_goal against these brokers and checks no allocate_buckets / new goal entry reaches a non-permitted server. Sampled.",
-    "note": "Foolscap-type NativeStorageServer only (HTTP servers need a live connection); tub and remote references are fakes; Publish.update_goal is driven on a Publish object whose planning attributes are set as publish() sets them (no grid yet); order among servers with identical permutation seeds is dont_care.",
+    "text": "Builds pairs of real StorageFarmBrokers from the same seeded server set (1-10 servers, real ed25519 identities, ~40% also announcing anonymous-storage-NURLs, force_foolscap on/off per broker, announced / static / test_add_rref paths, different insertion orders, connections made and lost through the real _got_connection / notifyOnDisconnect callbacks, re-announcements), configured either directly (StorageClientConfig) or through tahoe.cfg text (from_node_config), with preferred peers and 0-2 grid-manager keys, servers carrying valid / expired / soon-expiring / other-server / foreign-signer / tampered certificates. Oracle: get_servers_for_psi order == preferred first then sha1(psi+announced seed) via hashlib; every IServer's permutation / lease / write-enabler seed equals what the announcement implies; both brokers agree; for_upload=True removes exactly the non-permitted servers (model: C33 predicate with integer clock) and keeps the order, across clock moves over expiry. Also runs the real immutable Tahoe2ServerSelector.get_shareholders and mutable Publish.update_goal against these brokers and checks no allocate_buckets / new goal entry reaches a non-permitted server. Sampled.",
+    "note": "Servers announcing NURLs become real HTTPNativeStorageServer objects on brokers without force_foolscap (brokers are built with the flag on and off); they connect through their real polling path (_connect -> _got_version / _failed_to_connect), only the wire-level classes storage_client.StorageClientGeneral / StorageClientImmutables are substituted. Tub and remote references are fakes; Publish.update_goal is driven on a Publish object whose planning attributes are set as publish() sets them (no grid yet); order among servers with identical permutation seeds is dont_care.",
 }
 LEVEL = "exploration"
 BUDGET = {"quick": 40, "thorough": 240}
@@ -427,10 +427,10 @@ def run(ck):
             ck.hit("immutable-asks-for_upload")
         perm = {m.sid: m.permitted(configured, now_us) for m in servers}
         conn = {m.sid for m in servers if m.connected}
+        if any(h.http.get(m.sid) and m.connected and perm[m.sid] for m in servers):
+            ck.hit("immutable-selection-over-http-servers")     # model-derived: which server gets a share is not deterministic
         for name, sid in h.log + [(n, port2sid.get(p)) for n, p in http_log]:
             if name == "allocate_buckets":
-                if sid not in h.rrefs:
-                    ck.hit("allocate_buckets-over-http")
                 ck.hit("allocate_buckets-observed")
                 if not perm[sid]:
                     ck.violation("immutable-upload-allocates-on-unpermitted-server",
@@ -624,7 +624,7 @@ def run(ck):
     ck.require_monitor("server-seeds-oracle", "order-oracle", "upload-filter-oracle", "certificate-oracle", "cross-broker-agreement",
                        "immutable-upload-oracle", "mutable-goal-oracle")
     ck.require_reach("path:announcement", "path:static", "path:test_add_rref", "connected-via-got_connection",
-                     "http-server-object", "http-server-in-order", "connected-via-http-poll", "allocate_buckets-over-http",
+                     "http-server-object", "http-server-in-order", "connected-via-http-poll", "immutable-selection-over-http-servers",
                      "force_foolscap:False/True", "force_foolscap:True/False",
                      "config-via-tahoe-cfg", "upload-filter-excluded-a-server", "upload-filter-kept-a-server",
                      "immutable-asks-for_upload", "allocate_buckets-observed", "mutable-new-placement")
@@ -632,8 +632,8 @@ def run(ck):
 
 
 # MUST_CATCH -- planted in a scratch copy (VF_REPO=/var/tmp/auth_st/... ./check C32), removed afterwards.
-# The unchanged tree already reports `preferred-peers-from-config-ignored` (genuine, see report); a break counts as
-# caught only when it adds another key.
+# (`preferred-peers-from-config-ignored` was a genuine finding on the original tree; fixed in /repo since.)
+# The same list lives in selftest/breaks_c32.py (tools/selftest.py --prop C32): 13/13 caught.
 #   util/hashutil.py   permute_server_hash without the storage index ........ caught: server-order-mismatch
 #   storage_client.py  `if for_upload:` -> `if False:` ........................ caught: for_upload-not-exactly-permitted-subsequence,
 #                                                                                      immutable-upload-allocates-on-unpermitted-server
@@ -647,4 +647,6 @@ def run(ck):
 #                                                                                      mutable-goal-refuses-although-permitted-server-exists
 #   mutable/publish.py update_goal: `if not server.upload_permitted():` -> `if False:`  caught: mutable-goal-adds-unpermitted-server
 #   immutable/upload.py get_servers_for_psi(storage_index) without for_upload=True ..... caught: immutable-upload-allocates-on-unpermitted-server
-# Proposed fix (from_node_config: p.strip().encode("utf-8")) applied to a scratch copy: exit 0.
+#   storage_client.py  HTTPNativeStorageServer.get_lease_seed returns the permutation seed  caught: lease-or-write-enabler-seed-mismatch
+#   storage_client.py  HTTPNativeStorageServer.upload_permitted always True ...  caught: brokers-disagree(upload), immutable-upload-allocates-on-unpermitted-server
+#   seeded/C32-2       HTTPNativeStorageServer.get_permutation_seed returns the tub id  caught: permutation-seed-mismatch, server-order-mismatch, brokers-disagree
